@@ -21,6 +21,8 @@ STREAMS = ("auth", "stream", "parse", "refs", "sds")
 def _case_of(ctx, ops, i):
     lines = ctx.read_lines(ops)
     starts = [k for k, l in enumerate(lines) if l.startswith("case")]
+    if i >= len(starts):
+        return lines[:200]
     s = starts[i]
     e = starts[i + 1] if i + 1 < len(starts) else len(lines)
     return lines[s:e]
@@ -43,6 +45,8 @@ def oracle(ctx, stream, case_lines, rep, wide=True):
                 cands.append(os.path.join(cdir, fn))
     for ops in cands:
         out = os.path.join(ctx.work, os.path.basename(ops) + ".verdict")
+        if os.path.exists(out):
+            os.remove(out)  # never read a stale verdict file
         rc, log = ctx.harness("oracle", stream, ops, out)
         if rc != 0 or not os.path.exists(out):
             continue
